@@ -336,14 +336,15 @@ Proof.
 Qed.
 
 (* ---- reducers ---- *)
-Lemma sreduce_loop_chain {A} n live (f : A -> Z -> A) : forall acc s o s' ev,
+Lemma sreduce_loop_chain {A} n live (f : A -> Z -> cbres A) : forall acc s o s' ev,
   sreduce_loop n live f acc s = (o, s', ev) -> chain (sstep live) s ev s'.
 Proof.
   induction n as [|n IH]; intros acc s o s' ev Hc; simpl in Hc.
   - inv_ret Hc. constructor.
   - destruct (sstep live s) as [[o1 s1] ev1] eqn:E.
     destruct o1 as [x| | | |]; try (inv_ret Hc; eapply chain_one; exact E).
-    destruct (sreduce_loop n live f (f acc x) s1) as [[o2 s2] ev2] eqn:E2.
+    destruct (f acc x) as [acc'|e|]; try (inv_ret Hc; eapply chain_one; exact E).
+    destruct (sreduce_loop n live f acc' s1) as [[o2 s2] ev2] eqn:E2.
     simpl in Hc. inv_ret Hc. eapply chain_step; [exact E|]. eapply IH. exact E2.
 Qed.
 
@@ -372,10 +373,11 @@ Proof.
 Qed.
 
 (* the body of a reducer is a chain of Next calls; with its deferred Close the log is
-   [ev ++ sclose s'] *)
+   [ev ++ sclose s'] - whatever the body did, panics included *)
 Definition closing_reducer (cfg : config) (r : reducer) : bool :=
+  cfg_defer_close cfg &&
   match r with
-  | RCollect | RLast _ | RSum => true
+  | RCollect | RLast _ | RSum _ => true
   | ROne => cfg_one_closes cfg
   | REqualSelf | REqual _ => false
   end.
@@ -384,15 +386,17 @@ Lemma srun_reduce_log cfg z r live o log :
   closing_reducer cfg r = true -> srun_reduce cfg z r live = (o, log) ->
   exists s' ev, chain (sstep live) (sinit z) ev s' /\ log = ev ++ sclose s'.
 Proof.
-  intros Hr. unfold srun_reduce. destruct r as [|n| | | |others]; simpl in Hr; try discriminate.
-  - unfold scollect, sreduce, deferred_close.
-    destruct (sreduce_loop (sred_fuel (sinit z)) live (fun out x => out ++ [x]) [] (sinit z))
+  intros Hr. unfold closing_reducer in Hr. apply andb_true_iff in Hr. destruct Hr as [Hdf Hr].
+  unfold srun_reduce. destruct r as [|n| |fl| |others]; simpl in Hr; try discriminate.
+  - unfold scollect, sreduce, reducer_close. rewrite Hdf. unfold deferred_close.
+    destruct (sreduce_loop (sred_fuel (sinit z)) live (fun out x => CbOk (out ++ [x])) []
+                           (sinit z))
       as [[o1 s1] ev1] eqn:E.
     intros Hc. injection Hc as ? ?; subst. exists s1, ev1.
     split; [eapply sreduce_loop_chain; exact E|reflexivity].
-  - unfold slast, deferred_close.
+  - unfold slast, reducer_close. rewrite Hdf. unfold deferred_close.
     destruct (cfg_last_guard cfg && (n <=? 0)).
-    + destruct (sreduce_loop (sred_fuel (sinit z)) live (fun (u : unit) _ => u) tt (sinit z))
+    + destruct (sreduce_loop (sred_fuel (sinit z)) live (fun (u : unit) _ => CbOk u) tt (sinit z))
         as [[o1 s1] ev1] eqn:E.
       intros Hc. exists s1, ev1. split; [eapply sreduce_loop_chain; exact E|].
       destruct o1; injection Hc as ? ?; subst; reflexivity.
@@ -403,12 +407,13 @@ Proof.
           as [[o1 s1] ev1] eqn:E.
         intros Hc. exists s1, ev1. split; [eapply slast_loop_chain; exact E|].
         destruct o1 as [[buf i]| | | |]; injection Hc as ? ?; subst; reflexivity.
-  - unfold sone. rewrite Hr. unfold deferred_close.
+  - unfold sone. rewrite Hr. unfold reducer_close. rewrite Hdf. unfold deferred_close.
     destruct (sone_body live (sinit z)) as [[o1 s1] ev1] eqn:E.
     intros Hc. injection Hc as ? ?; subst. exists s1, ev1.
     split; [eapply sone_body_chain; exact E|reflexivity].
-  - unfold sreduce, deferred_close.
-    destruct (sreduce_loop (sred_fuel (sinit z)) live Z.add 0 (sinit z)) as [[o1 s1] ev1] eqn:E.
+  - unfold sreduce, reducer_close. rewrite Hdf. unfold deferred_close.
+    destruct (sreduce_loop (sred_fuel (sinit z)) live (ssum_step fl) (O, 0) (sinit z))
+      as [[o1 s1] ev1] eqn:E.
     intros Hc. injection Hc as ? ?; subst. exists s1, ev1.
     split; [eapply sreduce_loop_chain; exact E|reflexivity].
 Qed.
